@@ -270,6 +270,8 @@ def extra_programs():
                     "entries": {"eval_root": {"kind": "eval", "fn": "root"}}})
     from . import c09
     for pl in c09.PLACEMENTS:
+        if pl == "loaded_value_through_map":
+            continue   # written with a raw statement that the expected-graph computation cannot read
         for pr in ("datafn", "keepcall"):
             sp = c09.make_spec(pl, pr)
             sp = dict(sp, entries={"eval_root": sp["entries"]["both"]}, id="G/" + sp["id"], key="load|" + sp["key"])
